@@ -345,3 +345,468 @@ def s_clone(ctx):
 
 SCENARIOS.append(Scenario("C06.pattern_ir.clone", s_clone, [(PREL, "Constant.clone"), (PREL, "Var.clone"), (PREL, "NodePattern.clone"),
                                                              (PREL, "Constant.__init__"), (PREL, "Var.__init__"), (PREL, "ValuePattern.__init__")]))
+
+
+# ------------------------------------------------------------------ the recursive matcher, function by function ---
+# Callees are replaced by recorders whose results are chosen arbitrarily (modular reasoning: only their contracts —
+# "returns whether ... matches, extends the match state" — are used); each function's OWN logic is executed from source.
+
+class MatchStub:
+    """self._match: records binding calls; results of bind_value chosen per call"""
+
+    def __init__(self, ctx, already=None):
+        self.ctx = ctx
+        self.calls = []
+        self.already = already or {}
+        self.reason = "reason"
+        self.nodes = []
+        self.outputs = []
+        self.failed = False
+        self.bindings = {}
+        self.value_bindings = {}
+
+    def lookup_node(self, pattern_node):
+        return self.already.get(id(pattern_node))
+
+    def bind_node(self, pattern_node, node):
+        self.calls.append(("bind_node", pattern_node, node))
+        self.nodes.append(node)
+
+    def bind_value(self, pattern_value, value):
+        ok = self.ctx.choose(2, f"bind_value #{len([c for c in self.calls if c[0] == 'bind_value'])} succeeds") == 0
+        self.calls.append(("bind_value", pattern_value, value, ok))
+        return ok
+
+    def bind(self, var, value):
+        self.calls.append(("bind", var, value))
+        return True
+
+    def enter_new_match(self):
+        self.calls.append(("enter",))
+
+    def merge_current_match(self):
+        self.calls.append(("merge",))
+
+    def abandon_current_match(self):
+        self.calls.append(("abandon",))
+
+    def fail(self, *a, **k):
+        self.failed = True
+        return self
+
+    def __bool__(self):
+        return not self.failed
+
+
+for _n in ("lookup_node", "bind_node", "bind_value", "bind", "enter_new_match", "merge_current_match", "abandon_current_match", "fail", "__bool__"):
+    getattr(MatchStub, _n)._pyvc_native = True
+
+
+def _matcher_self(I, ctx, match, graph=None):
+    from onnxscript.rewriter import _matcher
+    self = SObj(_matcher.SimplePatternMatcher, "matcher")
+
+    def fail(*a, **k):
+        raise AssertionError
+    I.models[fail] = lambda interp, *a, **k: False
+    self.fields.update(fail=fail, _match=match, _verbose=0, _current_node=None, _graph=graph)
+    return self
+
+
+def s_match_node(ctx):
+    """_match_node(pattern_node, node): True iff the node is an instance of the node pattern — operator / attributes
+    (NodePattern.matches), EVERY input position of the pattern (a missing trailing input of the node counts as None;
+    extra node inputs only with allow_other_inputs), and every pattern output bound to the node's output."""
+    import onnx_ir as ir
+    from onnxscript.rewriter import _matcher, _pattern_ir
+    I = Interp(ctx)
+    pn = SObj(_pattern_ir.NodePattern, "pattern_node")
+    node = SObj(ir.Node, "node")
+    prior = ["unmatched", "same node", "another node"][ctx.choose(3, "pattern node already matched to")]
+    other = SObj(ir.Node, "other_node")
+    match = MatchStub(ctx, {id(pn): node} if prior == "same node" else ({id(pn): other} if prior == "another node" else {}))
+    self = _matcher_self(I, ctx, match)
+    op_ok = ctx.choose(2, "operator/attributes match") == 0
+
+    def f_matches(*a):
+        raise AssertionError
+    I.models[f_matches] = lambda interp, n, m: op_ok
+    k_p, k_n = ctx.choose(4, "pattern inputs"), ctx.choose(4, "node inputs")
+    p_in = [(None if ctx.choose(2, f"pattern input {i} is None") == 1 else Tok(f"pat_in{i}")) for i in range(k_p)]
+    n_in = [(None if ctx.choose(2, f"node input {i} is None") == 1 else Tok(f"val{i}")) for i in range(k_n)]
+    allow = ctx.choose(2, "allow_other_inputs") == 1
+    m_p, m_n = 1 + ctx.choose(2, "pattern outputs"), 1 + ctx.choose(2, "node outputs")
+    p_out = [Tok(f"pat_out{i}") for i in range(m_p)]
+    n_out = [Tok(f"out{i}") for i in range(m_n)]
+    pn.fields.update(matches=f_matches, inputs=p_in, outputs=p_out, allow_other_inputs=allow)
+    node.fields.update(inputs=n_in, outputs=n_out, op_type="Op")
+    mv = []
+
+    def m_match_value(interp, slf, pat, val):
+        ok = ctx.choose(2, f"input {len(mv)} matches") == 0
+        mv.append((pat, val, ok))
+        return ok
+    I.models[_matcher.SimplePatternMatcher._match_value] = m_match_value
+    r = I.run_closure(I.closure_of(_matcher.SimplePatternMatcher._match_node), [self, pn, node], {})
+    r = bool(r)
+    if prior != "unmatched":
+        ctx.check("C06.matcher.match_node.a_pattern_node_matches_one_graph_node_only", r == (prior == "same node") and not mv and not match.calls, CL)
+        return
+    if not op_ok:
+        ctx.check("C06.matcher.match_node.fails_if_operator_or_attributes_differ", r is False and not mv, CL)
+        return
+    if k_n > k_p and not allow:
+        ctx.check("C06.matcher.match_node.extra_node_inputs_need_allow_other_inputs", r is False, CL)
+        return
+    # expected sequence of input checks: every pattern position, left to right, until the first failure
+    want_calls, ok_inputs = [], True
+    for i in range(k_p):
+        val = n_in[i] if i < k_n else None
+        if p_in[i] is None:
+            if val is not None:
+                ok_inputs = False
+                break
+            continue
+        want_calls.append((p_in[i], val))
+        got = mv[len(want_calls) - 1] if len(want_calls) <= len(mv) else None
+        if got is None or not got[2]:
+            ok_inputs = False
+            break
+    ctx.check("C06.matcher.match_node.every_pattern_input_position_is_checked_against_the_node_input_or_None",
+              [(a, b) for a, b, _ in mv] == want_calls, CL + " — an input the pattern lists must be matched even when the node has fewer inputs")
+    if not ok_inputs:
+        ctx.check("C06.matcher.match_node.fails_if_an_input_does_not_match", r is False, CL)
+        return
+    binds = [c for c in match.calls if c[0] == "bind_value"]
+    want_b, ok_out = [], True
+    for i in range(m_p):
+        if i >= m_n:
+            ok_out = False
+            break
+        want_b.append((p_out[i], n_out[i]))
+        got = binds[len(want_b) - 1] if len(want_b) <= len(binds) else None
+        if got is None or not got[3]:
+            ok_out = False
+            break
+    ctx.check("C06.matcher.match_node.pattern_outputs_bound_to_the_outputs_at_the_same_index", [(c[1], c[2]) for c in binds] == want_b, CL_BIND)
+    ctx.check("C06.matcher.match_node.result_is_the_conjunction_of_all_parts", r == ok_out, CL)
+    ctx.check("C06.matcher.match_node.node_recorded_as_matched", ("bind_node", pn, node) in match.calls, CL_BIND)
+
+
+def s_match_value(ctx):
+    """_match_value dispatch on the kind of value pattern."""
+    import onnx_ir as ir
+    from onnxscript.rewriter import _matcher, _pattern_ir
+    I = Interp(ctx)
+    match = MatchStub(ctx)
+    graph, other_graph = SObj(ir.Graph, "graph"), SObj(ir.Graph, "other_graph")
+    graph.fields["name"] = "g"
+    self = _matcher_self(I, ctx, match, graph)
+    kind = ["AnyValue", "Var", "NodeOutputPattern", "Constant", "BacktrackingOr", "OpIdDispatchOr"][ctx.choose(6, "pattern kind")]
+    vkind = ["None", "same graph", "other graph"][ctx.choose(3, "value")]
+    value = None
+    if vkind != "None":
+        value = SObj(ir.Value, "value")
+        value.fields.update(graph=(graph if vkind == "same graph" else other_graph), name="v")
+    P = _pattern_ir
+    sub = []
+
+    def rec(tag):
+        def m(interp, slf, *a):
+            ok = ctx.choose(2, f"{tag} #{len(sub)} succeeds") == 0
+            sub.append((tag, a, ok))
+            return ok
+        return m
+    I.models[_matcher.SimplePatternMatcher._match_node_output] = rec("node_output")
+    I.models[_matcher.SimplePatternMatcher._match_constant] = rec("constant")
+    alts = [Tok("alt0"), Tok("alt1")]
+    if kind == "AnyValue":
+        pv = SObj(P.AnyValue, "any")
+    elif kind == "Var":
+        pv = SObj(P.Var, "var")
+        pv.fields["can_match_none"] = ctx.choose(2, "variable can match None") == 1
+    elif kind == "NodeOutputPattern":
+        pv = SObj(P.NodeOutputPattern, "nodeoutput")
+    elif kind == "Constant":
+        pv = SObj(P.Constant, "const")
+    elif kind == "BacktrackingOr":
+        pv = SObj(P.BacktrackingOr, "or")
+        pv.fields.update(_values=alts, tag_var=("tag" if ctx.choose(2, "or has a tag variable") == 1 else None), _tag_values=["t0", "t1"])
+    else:
+        pv = SObj(P.OpIdDispatchOr, "dispatch")
+        found = ctx.choose(3, "dispatch finds")  # 0 none, 1 alt0, 2 alt1
+
+        def gp(v):
+            raise AssertionError
+        I.models[gp] = lambda interp, v: (None if found == 0 else (found - 1, alts[found - 1]))
+        pv.fields.update(get_pattern=gp, tag_var=("tag" if ctx.choose(2, "or has a tag variable") == 1 else None))
+    # recursive calls on the alternatives are recorded (the top-level call is interpreted)
+    clo = I.closure_of(_matcher.SimplePatternMatcher._match_value)
+    depth = {"n": 0}
+
+    def m_match_value(interp, slf, pat, val):
+        if pat is pv and depth["n"] == 0:
+            depth["n"] += 1
+            return interp.run_closure(clo, [slf, pat, val], {})
+        ok = ctx.choose(2, f"alternative #{len(sub)} matches") == 0
+        sub.append(("alt", (pat, val), ok))
+        return ok
+    I.models[_matcher.SimplePatternMatcher._match_value] = m_match_value
+    r = bool(I.call(I.getattr(self, "_match_value"), [pv, value]))
+    binds = [c for c in match.calls if c[0] == "bind_value"]
+    cross = vkind == "other graph" and kind not in ("AnyValue", "Var", "Constant")
+    if cross:
+        ctx.check("C06.matcher.match_value.no_match_across_graph_boundaries_except_for_variables_and_constants", r is False and not binds and not sub, CL)
+        return
+    if kind == "AnyValue":
+        ctx.check("C06.matcher.match_value.any_value_matches_everything_and_binds_nothing", r is True and not match.calls, CL)
+        return
+    ok_bind = len(binds) == 1 and binds[0][1] is pv and binds[0][2] is value
+    ctx.check("C06.matcher.match_value.the_value_is_bound_to_the_pattern_value_first", ok_bind, CL_BIND)
+    if not ok_bind:
+        return
+    if not binds[0][3]:
+        ctx.check("C06.matcher.match_value.fails_if_the_binding_conflicts", r is False and not sub, CL_BIND)
+        return
+    if kind == "Var":
+        ctx.check("C06.matcher.match_value.variable_matches_None_only_if_it_may", r == (value is not None or pv.fields["can_match_none"]), CL)
+    elif kind in ("NodeOutputPattern", "Constant"):
+        tag = "node_output" if kind == "NodeOutputPattern" else "constant"
+        if value is None:
+            ctx.check("C06.matcher.match_value.computed_or_constant_pattern_never_matches_a_missing_input", r is False and not sub, CL)
+        else:
+            ctx.check("C06.matcher.match_value.delegates_to_the_matching_routine_of_the_pattern_kind",
+                      len(sub) == 1 and sub[0][0] == tag and sub[0][1] == (pv, value) and r == sub[0][2], CL)
+    elif kind == "BacktrackingOr":
+        tried = [s_ for s_ in sub if s_[0] == "alt"]
+        first_ok = next((i for i, s_ in enumerate(tried) if s_[2]), None)
+        ctx.check("C06.matcher.match_value.or_tries_the_alternatives_in_order_until_one_matches",
+                  [s_[1] for s_ in tried] == [(a, value) for a in (alts if first_ok is None else alts[:first_ok + 1])] and r == (first_ok is not None), CL)
+        ev = [c[0] for c in match.calls if c[0] in ("enter", "merge", "abandon")]
+        want_ev = []
+        for i in range(len(tried)):
+            want_ev += ["enter", "merge" if tried[i][2] else "abandon"]
+        ctx.check("C06.matcher.match_value.or_every_failed_alternative_is_abandoned_and_the_successful_one_merged", ev == want_ev, CL_BIND)
+        tags = [c for c in match.calls if c[0] == "bind"]
+        want_tags = [("bind", "tag", ["t0", "t1"][first_ok])] if (first_ok is not None and pv.fields["tag_var"]) else []
+        ctx.check("C06.matcher.match_value.or_tag_names_the_alternative_that_matched", tags == want_tags, CL_BIND)
+    else:
+        if value is None or found == 0:
+            ctx.check("C06.matcher.match_value.dispatch_or_fails_without_an_alternative_for_the_producer", r is False and not sub, CL)
+        else:
+            ctx.check("C06.matcher.match_value.dispatch_or_matches_the_selected_alternative", len(sub) == 1 and sub[0][1] == (alts[found - 1], value) and r == sub[0][2], CL)
+            tags = [c for c in match.calls if c[0] == "bind"]
+            ctx.check("C06.matcher.match_value.dispatch_or_tag_is_the_index_of_the_alternative",
+                      tags == ([("bind", "tag", found - 1)] if (r and pv.fields["tag_var"]) else []), CL_BIND)
+
+
+def s_match_node_output(ctx):
+    import onnx_ir as ir
+    from onnxscript.rewriter import _matcher, _pattern_ir
+    I = Interp(ctx)
+    match = MatchStub(ctx)
+    self = _matcher_self(I, ctx, match)
+    pv = SObj(_pattern_ir.NodeOutputPattern, "nodeoutput")
+    ppn = Tok("producer_pattern")
+    want_idx = ctx.choose(2, "pattern output index")
+
+    def f_prod_p():
+        raise AssertionError
+    I.models[f_prod_p] = lambda interp: ppn
+    pv.fields.update(producer=f_prod_p, output_index=want_idx, _output_index=want_idx)
+    value = SObj(ir.Value, "value")
+    has_prod = ctx.choose(2, "value has a producer") == 0
+    idx = ctx.choose(2, "value index")
+    node = Tok("node")
+
+    def f_prod():
+        raise AssertionError
+
+    def f_idx():
+        raise AssertionError
+    I.models[f_prod] = lambda interp: node if has_prod else None
+    I.models[f_idx] = lambda interp: idx
+    value.fields.update(producer=f_prod, index=f_idx)
+    calls = []
+
+    def m_match_node(interp, slf, p, n):
+        ok = ctx.choose(2, "producer node matches") == 0
+        calls.append((p, n, ok))
+        return ok
+    I.models[_matcher.SimplePatternMatcher._match_node] = m_match_node
+    r = bool(I.run_closure(I.closure_of(_matcher.SimplePatternMatcher._match_node_output), [self, pv, value], {}))
+    if not has_prod or idx != want_idx:
+        ctx.check("C06.matcher.match_node_output.needs_a_producer_and_the_same_output_index", r is False and not calls, CL)
+    else:
+        ctx.check("C06.matcher.match_node_output.matches_iff_the_producer_matches_the_producer_pattern", calls[:1] == [(ppn, node, r)] and len(calls) == 1, CL)
+
+
+def s_match_outer(ctx, multi):
+    """_match_single_output_node / _multi_match: success iff every output node matches, every output value is bound and
+    (when nodes are to be removed) the match is removable; the outputs of the result are exactly the bound output values."""
+    import onnx_ir as ir
+    from onnxscript.rewriter import _matcher
+    I = Interp(ctx)
+    match = MatchStub(ctx)
+    self = _matcher_self(I, ctx, match)
+    pat = SObj(object, "pattern")
+    k = 2 if multi else 1
+    pnodes = [Tok(f"pnode{i}") for i in range(k)]
+    nodes = [Tok(f"node{i}") for i in range(k)]
+    pat.fields.update(has_single_output_node=not multi, output_node=pnodes[0], output_nodes=pnodes)
+    self.fields["pattern"] = pat
+    calls = []
+
+    def m_match_node(interp, slf, p, n):
+        ok = ctx.choose(2, f"output node {len(calls)} matches") == 0
+        calls.append((p, n, ok))
+        if not ok:
+            match.failed = True   # callee contract: a failed sub-match leaves the match state failed (self.fail)
+        return ok
+    I.models[_matcher.SimplePatternMatcher._match_node] = m_match_node
+    outs_found = ctx.choose(2, "every output value is bound") == 0
+    outs = [Tok("outval0"), Tok("outval1")]
+
+    def m_outputs(interp, slf):
+        if not outs_found:
+            match.failed = True   # callee contract: unbound outputs fail the match
+            return None
+        return list(outs)
+    I.models[_matcher.SimplePatternMatcher._get_output_values] = m_outputs
+    removable = ctx.choose(2, "removable") == 0
+    vcalls = []
+    I.models[_matcher._valid_to_replace] = lambda interp, ns, ov: (vcalls.append((ns, list(ov))) or removable)
+    check_removable = ctx.choose(2, "check_removable") == 0
+    if multi:
+        r = I.run_closure(I.closure_of(_matcher.SimplePatternMatcher._multi_match), [self, list(nodes)], {"check_removable": check_removable})
+    else:
+        r = I.run_closure(I.closure_of(_matcher.SimplePatternMatcher._match_single_output_node), [self, Tok("model"), Tok("graph"), nodes[0]],
+                          {"check_removable": check_removable})
+    tag = "multi_match" if multi else "single_output"
+    want_calls, all_ok = [], True
+    for i in range(k):
+        want_calls.append((pnodes[i], nodes[i]))
+        if not (len(calls) > i and calls[i][2]):
+            all_ok = False
+            break
+    ctx.check(f"C06.matcher.{tag}.every_output_node_pattern_is_matched_against_its_candidate", [(a, b) for a, b, _ in calls] == want_calls, CL)
+    success = all_ok and outs_found and (not check_removable or removable)
+    ctx.check(f"C06.matcher.{tag}.succeeds_iff_nodes_match_outputs_are_bound_and_the_match_is_removable", r is match and bool(match) == success and
+              (not (all_ok and outs_found and check_removable) or vcalls == [(match.nodes, outs)]), CL + " / " + CL_REPL)
+    ctx.check(f"C06.matcher.{tag}.result_outputs_are_the_bound_output_values", match.outputs == (outs if success else []), CL_BIND)
+
+
+def s_match_entry(ctx):
+    """SimplePatternMatcher.match for multi-output patterns: the first output node is the given node, the candidates of
+    the others are the nodes with the pattern node's operator (all nodes if unknown); EVERY combination is tried on a
+    fresh match state until one succeeds."""
+    import onnx_ir as ir
+    from onnxscript.rewriter import _matcher, _basics
+    from .c10_version import GraphLike
+    I = Interp(ctx)
+    self = SObj(_matcher.SimplePatternMatcher, "matcher")
+    pat = SObj(object, "pattern")
+    single = ctx.choose(2, "pattern has a single output node") == 0
+    p0, p1 = SObj(object, "pnode0"), SObj(object, "pnode1")
+    id_known = ctx.choose(2, "second output node has a known operator") == 0
+
+    def f_opid():
+        raise AssertionError
+    I.models[f_opid] = lambda interp: (("", "Abs", "") if id_known else None)
+    p1.fields["op_identifier"] = f_opid
+    pat.fields.update(has_single_output_node=single, output_nodes=[p0, p1])
+    self.fields["pattern"] = pat
+    # host graph: three nodes; which of them are Abs is arbitrary
+    gnodes = []
+    for i in range(3):
+        n = SObj(ir.Node, f"n{i}")
+        is_abs = ctx.choose(2, f"n{i} is Abs") == 0
+
+        def f_id():
+            raise AssertionError
+        I.models[f_id] = (lambda a: lambda interp: ("", "Abs" if a else "Neg", ""))(is_abs)
+        n.fields.update(op_identifier=f_id, is_abs=is_abs)
+        gnodes.append(n)
+    as_function = ctx.choose(2, "container is a function") == 1
+    inner = SObj(ir.Graph, "function_graph")
+    container = GraphLike(list(gnodes), {})
+    orig_isinstance = I.models[isinstance]
+
+    def m_isinstance(interp, v, cls):
+        if v is container:
+            return (cls is ir.Graph) != as_function if cls in (ir.Graph, ir.Function) else False
+        return orig_isinstance(interp, v, cls)
+    I.models[isinstance] = m_isinstance
+    container.graph = inner
+    events = []
+    states = []
+
+    def m_init(interp, slf, verbose):
+        st = Tok(f"state{len(states)}")
+        st.dirty = False
+        states.append(st)
+        slf.fields["_match"] = st
+        events.append(("init",))
+    I.models[_matcher.SimplePatternMatcher._init_match] = m_init
+
+    class R:
+        def __init__(self, ok):
+            self.ok = ok
+
+        def __bool__(self):
+            return self.ok
+    R.__bool__._pyvc_native = True
+
+    def m_multi(interp, slf, combination, check_removable=None):
+        st = slf.fields.get("_match")
+        fresh = st is not None and not st.dirty
+        if st is not None:
+            st.dirty = True
+        ok = ctx.choose(2, f"combination #{len([e for e in events if e[0] == 'multi'])} matches") == 0
+        res = R(ok)
+        events.append(("multi", tuple(combination), check_removable, fresh, res))
+        return res
+
+    def m_single(interp, slf, model, g, node, check_removable=None):
+        st = slf.fields.get("_match")
+        res = R(True)
+        events.append(("single", node, check_removable, st is not None and not st.dirty, res))
+        return res
+    I.models[_matcher.SimplePatternMatcher._multi_match] = m_multi
+    I.models[_matcher.SimplePatternMatcher._match_single_output_node] = m_single
+    I.models[_basics.MatchResult] = lambda interp: MatchStub(ctx)
+    remove_nodes = ctx.choose(2, "remove_nodes") == 0
+    r = I.run_closure(I.closure_of(_matcher.SimplePatternMatcher.match), [self, Tok("model"), container, gnodes[0]], {"remove_nodes": remove_nodes})
+    ctx.check("C06.matcher.match.cross_graph_checks_use_the_graph_of_the_container", self.fields.get("_graph") is (inner if as_function else container), CL)
+    if single:
+        ev = [e for e in events if e[0] == "single"]
+        ctx.check("C06.matcher.match.single_output_pattern_matched_at_the_given_node_on_a_fresh_state",
+                  len(ev) == 1 and ev[0][1] is gnodes[0] and ev[0][2] == remove_nodes and ev[0][3] and r is ev[0][4], CL)
+        return
+    cands = [n for n in gnodes if n.fields["is_abs"]] if id_known else list(gnodes)
+    want = [(gnodes[0], c) for c in cands]
+    tried = [e for e in events if e[0] == "multi"]
+    first_ok = next((i for i, e in enumerate(tried) if e[4].ok), None)
+    want_tried = want if first_ok is None else want[:first_ok + 1]
+    ctx.check("C06.matcher.match.every_candidate_combination_is_tried_until_one_matches", [e[1] for e in tried] == want_tried and
+              all(e[2] == remove_nodes for e in tried), CL + " — the instance may be any combination, not only the first")
+    ctx.check("C06.matcher.match.each_combination_starts_from_a_fresh_match_state", all(e[3] for e in tried),
+              CL_BIND + " — bindings left by a failed combination must not leak into the next one")
+    if first_ok is not None:
+        ctx.check("C06.matcher.match.returns_the_first_successful_combination", r is tried[first_ok][4], CL)
+    else:
+        ctx.check("C06.matcher.match.reports_failure_when_no_combination_matches", not bool(r), CL)
+
+
+SCENARIOS += [
+    Scenario("C06.matcher.match_node", s_match_node, [(MREL, "SimplePatternMatcher._match_node")], kind="bounded",
+             bound="<= 3 pattern inputs, <= 3 node inputs (each possibly None), 1-2 outputs; callee results arbitrary", max_paths=200000),
+    Scenario("C06.matcher.match_value", s_match_value, [(MREL, "SimplePatternMatcher._match_value")], kind="bounded",
+             bound="Or patterns with 2 alternatives; callee results arbitrary"),
+    Scenario("C06.matcher.match_node_output", s_match_node_output, [(MREL, "SimplePatternMatcher._match_node_output")]),
+    Scenario("C06.matcher.single_output", lambda ctx: s_match_outer(ctx, False), [(MREL, "SimplePatternMatcher._match_single_output_node")]),
+    Scenario("C06.matcher.multi_match", lambda ctx: s_match_outer(ctx, True), [(MREL, "SimplePatternMatcher._multi_match")], kind="bounded",
+             bound="2 output nodes"),
+    Scenario("C06.matcher.match", s_match_entry, [(MREL, "SimplePatternMatcher.match"), (MREL, "SimplePatternMatcher.match.get_nodes")], kind="bounded",
+             bound="host graph of 3 nodes, pattern with 2 output nodes"),
+]
